@@ -92,6 +92,10 @@ func (zset *ZSet) Range(start int, stop int, opt ZRangeOption) []*ZSetMember {
 	if stop < 0 {
 		stop = len(zset.members) + stop
 	}
+	if opt.REV {
+		// With REV the indexes count from the highest score.
+		start, stop = len(zset.members)-1-stop, len(zset.members)-1-start
+	}
 	// Only the existing ranks have to be visited.
 	if start < 0 {
 		start = 0
@@ -163,6 +167,10 @@ func (zset *ZSet) RangeByScore(min float64, max float64, opt ZRangeOption) []*ZS
 		count += offset
 	}
 
+	if opt.REV {
+		// LIMIT applies to the descending sequence.
+		offset, count = len(mems)-count, len(mems)-offset
+	}
 	if !opt.REV {
 		return mems[offset:count]
 	}
